@@ -16,6 +16,8 @@ package connect
 
 import (
 	"context"
+	"errors"
+	"io"
 	"net/http"
 )
 
@@ -57,6 +59,9 @@ func NewUnaryHandler[Req, Res any](
 	implementation := func(ctx context.Context, conn StreamingHandlerConn) error {
 		var msg Req
 		if err := conn.Receive(&msg); err != nil {
+			return err
+		}
+		if err := expectEndOfRequest[Req](conn); err != nil {
 			return err
 		}
 		request := &Request[Req]{
@@ -117,6 +122,9 @@ func NewServerStreamHandler[Req, Res any](
 		func(ctx context.Context, conn StreamingHandlerConn) error {
 			var msg Req
 			if err := conn.Receive(&msg); err != nil {
+				return err
+			}
+			if err := expectEndOfRequest[Req](conn); err != nil {
 				return err
 			}
 			return implementation(
@@ -293,4 +301,19 @@ func newStreamHandler(
 		protocolHandlers: protocolHandlers,
 		acceptPost:       sortedAcceptPostValue(protocolHandlers),
 	}
+}
+
+// expectEndOfRequest checks that the single request message of a unary or
+// server streaming RPC is the whole request: a second message, or bytes that
+// aren't a message at all, are a malformed request, not something to ignore.
+func expectEndOfRequest[Req any](conn StreamingHandlerConn) error {
+	var extra Req
+	err := conn.Receive(&extra)
+	if err == nil {
+		return NewError(CodeUnimplemented, errors.New("unary request has multiple messages"))
+	}
+	if errors.Is(err, io.EOF) {
+		return nil
+	}
+	return err
 }
